@@ -227,3 +227,19 @@ REG.contract(
              + [("Current.name", lambda s: [s.current]), "warnings"],
     ensures=[C("C12.update_constraint", _uc_post)],
 )
+
+
+# ---------------------------------------------------------------------------- Current construction from a list of station ids (the site factories' form)
+def _ci_post(old, new, ret):
+    k = z3.Const("k!ci", IdSort)
+    ids = old.loads
+    i = z3.Int("i!ci")
+    listed = z3.Exists([i], z3.And(i >= 0, i < ids.len, ty.sel(ids.v.arrs[0], i) == k))
+    return [("C12.a_current_built_from_a_list_of_stations_has_coefficient_one_for_each_of_them_and_mentions_no_other",
+             FA([k], z3.And(mentions(new.self, k) == listed, z3.Implies(listed, coef(new.self, k) == 1))))]
+
+
+REG.contract(
+    CUR + "__init__", params=dict(self=Ref("Current"), loads=Seq(Id)), modifies=[("Current.coef", lambda s: [s.self]), ("Current.name", lambda s: [s.self])],
+    ensures=[C("C12.current_from_station_list", _ci_post, props=("C12", "C16"))], recv="list",
+)
